@@ -255,8 +255,11 @@ func LoadPackage(dir string) (*PackageInfo, error) {
 
 	for i, vdir := range vdirs {
 		if vdir == dir {
-			// The main package has a version label
-			packageInfo.Versions[i].Package = packageInfo
+			// The main package has a version label. Refer to a copy without the version list:
+			// a PackageInfo that points to itself cannot be walked (e.g. to apply config overrides).
+			self := *packageInfo
+			self.Versions = nil
+			packageInfo.Versions[i].Package = &self
 			continue
 		}
 
